@@ -46,6 +46,10 @@ Proof. exact valid_path_is_bare_safe. Qed.
 Theorem C04_accepted_escaped_string_is_quote_safe : forall s, validate_escaped_novar s = true -> dq_ok s = true.
 Proof. exact valid_escaped_novar_is_dq_safe. Qed.
 
+(* ... and contains no dollar at all (NGINX has no escape for it inside an interpolated argument) *)
+Theorem C04_accepted_escaped_string_has_no_variable : forall s, validate_escaped_novar s = true -> contains_char "$"%char s = false.
+Proof. exact valid_escaped_novar_has_no_dollar. Qed.
+
 (* names, sizes, durations, endpoints and header names a validator accepts are non-empty plain strings *)
 Theorem C04_accepted_plain_values : forall s,
   (validate_alphanumeric s = true \/ validate_duration s = true \/ validate_size s = true \/
